@@ -69,10 +69,23 @@ def rule_b(ctx, out):
             n_app += 1
             a = c.args[-1]
             inner = a.args[0] if isinstance(a, ast.Call) and call_name(a) == "deepcopy" and a.args else a
+            if isinstance(inner, ast.Name):
+                # a local that only ever holds an element of the original list
+                from ..core.flow import single_assignments
+                defs = single_assignments(f.node).get(inner.id, [])
+                if defs and all(idx is None and isinstance(v, ast.Subscript) and isinstance(v.value, ast.Name) and v.value.id in inst_names
+                                and not isinstance(v.slice, ast.Slice) for (_, v, idx) in defs):
+                    inner = defs[0][1]
             if c.func.attr == "append" and isinstance(inner, ast.Subscript) and isinstance(inner.value, ast.Name) and inner.value.id in inst_names:
                 out.ok({"rebuild": short(c), "appends": "original item (or its deep copy)"})
             elif c.func.attr == "extend" and isinstance(inner, ast.Subscript) and is_name(inner.value, repl):
                 out.ok({"rebuild": short(c), "appends": "accepted replacement sequence"})
+            elif c.func.attr == "extend" and isinstance(inner, ast.Subscript) and isinstance(inner.slice, ast.Slice) and isinstance(inner.value, ast.Name) \
+                    and inner.value.id in inst_names:
+                out.ok({"rebuild": short(c), "appends": "a slice of the original items"})
+            elif c.func.attr == "extend" and isinstance(inner, (ast.ListComp, ast.GeneratorExp)) and isinstance(inner.elt, ast.Subscript) \
+                    and isinstance(inner.elt.value, ast.Name) and inner.elt.value.id in inst_names:
+                out.ok({"rebuild": short(c), "appends": "original items"})
             else:
                 out.bad(f"rebuild:appends-foreign-object:{short(c, 50)}", "the rebuild appends something that is neither an original item nor an "
                         "accepted replacement sequence", where(f, c))
